@@ -1,0 +1,9 @@
+//go:build !verif
+
+// Package verifhook provides named synchronisation points for the external
+// verification harness. Without the "verif" build tag every point is an
+// empty, inlinable function.
+package verifhook
+
+// Point does nothing unless the module is built with -tags verif.
+func Point(name string, args ...string) {}
